@@ -192,9 +192,27 @@ func handshakerRules(p *Prog, r *Report, R string) {
 		ec := wk.Ev("store", "$complit.e").Arg(0, "ErrClosed")
 		r.Check(len(ec) == 1 && ec.AllGuarded("recv.closed"), R, "worker/late-success-is-error", ec.Pos(p), "reported as ErrClosed", "late success not reported as ErrClosed")
 		del := wk.Ev("delete", "delete").Arg(0, "recv.workq")
-		r.Check(len(del) == 1 && len(del[0].Guard) == 0 && del.AllHeld("transport.connHandshaker.Mutex"), R, "worker/leaves-workq", del.Pos(p), "removed from the work set under the lock", "worker does not remove itself from workq")
+		r.Check(len(del) == 1 && del[0].Unconditional() && del.AllHeld("transport.connHandshaker.Mutex"), R, "worker/leaves-workq", del.Pos(p), "removed from the work set under the lock", "worker does not remove itself from workq")
 		bc := wk.Ev("call", "sync.(*Cond).Broadcast")
-		r.Check(len(bc) == 1 && len(bc[0].Guard) == 0, R, "worker/wakes-waiters", bc.Pos(p), "Broadcast on every path", "worker does not wake Wait on every path")
+		hsCall := wk.Ev("call", "connHandshakerPipe.handshake")
+		okW, whyW := false, "no handshake call"
+		if len(hsCall) == 1 && len(bc) >= 1 {
+			okW, whyW = q.FollowedBy(hsCall, bc)
+		}
+		r.Check(len(bc) >= 1 && okW, R, "worker/wakes-waiters", bc.Pos(p), "Broadcast on every path", "worker does not wake Wait on every path: "+whyW)
+		// every outcome is queued: a dialer's Dial is `Start; Wait`, and the result the worker
+		// drops is the only one that Wait is waiting for
+		var dq Sel
+		for _, e := range wk.All() {
+			if e.Kind == "store" && strings.HasSuffix(e.What, ".doneq") && strings.HasPrefix(e.Args[0], "append(") {
+				dq = append(dq, e)
+			}
+		}
+		okQ, whyQ := false, "no append to doneq"
+		if len(hsCall) == 1 && len(dq) >= 1 {
+			okQ, whyQ = q.FollowedBy(hsCall, dq)
+		}
+		r.Check(okQ, R, "worker/reports-every-outcome", dq.Pos(p), "the outcome of every handshake is appended to the done queue", "a handshake can end without its outcome being queued ("+whyQ+"): the Dial (Start; Wait) that is waiting for exactly this outcome never returns, so the dialer never retries")
 	}
 	cl := q.Fn(R, "transport", "connHandshaker", "Close")
 	if cl.OK() {
@@ -210,7 +228,7 @@ func handshakerRules(p *Prog, r *Report, R string) {
 				ndone++
 			}
 		}
-		r.Check(len(st) == 1 && len(st[0].Guard) == 0 && len(bc) == 1, R, "Close/marks-and-wakes", st.Pos(p), "closed=true and Broadcast", "handshaker Close does not set closed and wake waiters")
+		r.Check(len(st) == 1 && st[0].Unconditional() && len(bc) == 1, R, "Close/marks-and-wakes", st.Pos(p), "closed=true and Broadcast", "handshaker Close does not set closed and wake waiters")
 		r.Check(nwork == 1 && ndone == 1, R, "Close/closes-pending", cw.Pos(p), "closes every connection still handshaking and every finished one not yet accepted", "handshaker Close leaves pending connections open")
 	}
 	st := q.Fn(R, "transport", "connHandshaker", "Start")
@@ -280,7 +298,7 @@ func framingRules(p *Prog, r *Report, R string) {
 			}
 			r.Check(okOrder, R, f.Name+"/order", f.Pos(), "segments are prefix, Header, Body — each once, in that order", fmt.Sprintf("the frame is not prefix‖Header‖Body each exactly once: segments %v", seg))
 			wt := f.Ev("call", "net.(*Buffers).WriteTo")
-			r.Check(len(wt) == 1 && len(wt[0].Guard) == 0, R, f.Name+"/one-write", wt.Pos(p), "one vectored write of the whole frame", "the frame is not written by one WriteTo")
+			r.Check(len(wt) == 1 && wt[0].Unconditional(), R, f.Name+"/one-write", wt.Pos(p), "one vectored write of the whole frame", "the frame is not written by one WriteTo")
 			q.NilReturnsPass(R, f.Name+"/success-means-written", f, wt, "every nil return has written the frame", "Send can return nil without writing the frame (e.g. a shortcut for an empty message): the message is silently not sent")
 		}
 	}
@@ -396,7 +414,7 @@ func wsRules(p *Prog, r *Report, R string) {
 	sd := q.Fn(R, "transport/ws", "wsPipe", "Send")
 	if sd.OK() {
 		wm := sd.Ev("call", "websocket.(*Conn).WriteMessage")
-		r.Check(len(wm) == 1 && len(wm[0].Guard) == 0 && wm[0].Args[1] == "recv.dtype", R, "ws.Send/one-frame", wm.Pos(p), "exactly one WriteMessage of the pipe's data type per send", "ws Send does not write exactly one frame of type w.dtype: "+argsOf(wm))
+		r.Check(len(wm) == 1 && wm[0].Unconditional() && wm[0].Args[1] == "recv.dtype", R, "ws.Send/one-frame", wm.Pos(p), "exactly one WriteMessage of the pipe's data type per send", "ws Send does not write exactly one frame of type w.dtype: "+argsOf(wm))
 		q.NilReturnsPass(R, "ws.Send/success-means-written", sd, wm, "every nil return has written the frame", "ws Send can return nil without writing a frame: the message is silently not sent")
 		ap := sd.Ev("call", "append")
 		okc := len(ap) == 2 && strings.HasSuffix(ap[0].Args[1], "arg1.Header") && ap[1].Args[1] == "arg1.Body" && strings.HasPrefix(ap[1].Args[0], "append(")
@@ -454,6 +472,34 @@ func wsRules(p *Prog, r *Report, R string) {
 			}
 		}
 		r.Check(okd, R, "ws/dialer-offers-peer-name", dl.Pos(), `offers PeerName + ".sp.nanomsg.org"`, "the websocket dialer does not offer the sub-protocol <PeerName>.sp.nanomsg.org")
+		// exactly that one name on every attempt: the offer is a fresh one-element list (a list
+		// kept across redials and appended to offers the name twice on the second connection)
+		one, nst := true, 0
+		why := ""
+		for _, e := range dl.AllEv("store", "") {
+			if !strings.HasSuffix(e.What, ".Subprotocols") {
+				continue
+			}
+			nst++
+			st, _ := e.In.(*ssa.Store)
+			ok1 := false
+			if st != nil {
+				if sl, isSl := st.Val.(*ssa.Slice); isSl {
+					if al, isAl := sl.X.(*ssa.Alloc); isAl {
+						if pt, isP := al.Type().Underlying().(*types.Pointer); isP {
+							if at, isA := pt.Elem().Underlying().(*types.Array); isA && at.Len() == 1 {
+								ok1 = true
+							}
+						}
+					}
+				}
+			}
+			if !ok1 {
+				one = false
+				why = e.Args[0] + " at " + p.InstrPos(e.In)
+			}
+		}
+		r.Check(nst >= 1 && one, R, "ws/dialer-offers-exactly-one", dl.Pos(), "the offered sub-protocol list is a fresh one-element list on every Dial", "the websocket dialer's sub-protocol offer is not a fresh one-element list ("+why+"): a redial offers the name more than once (RFC 6455 requires the offered values to be unique)")
 	}
 	sh := q.Fn(R, "transport/ws", "listener", "ServeHTTP")
 	if sh.OK() {
